@@ -1184,6 +1184,21 @@ class Engine:
         low = z3.Extract(bits - 1, 0, bv)
         return low if signed else z3.ZeroExt(1, low)
 
+    def wrap_np(self, t, npk):
+        """numpy wrap-around, omitted when interval analysis under the path condition shows it cannot happen."""
+        from .intervals import collect_bounds, interval
+        c = conc_int(t)
+        if c is not None:
+            return wrap(t, npk)
+        if getattr(self, "_bounds_n", -1) != len(self.pc):
+            self._bounds = collect_bounds(self.pc)
+            self._bounds_n = len(self.pc)
+        lo, hi = interval(simp(t), self._bounds)
+        rlo, rhi = np_range(npk)
+        if lo >= rlo and hi <= rhi:
+            return t
+        return wrap(t, npk)
+
     def int_binop(self, op, a, b):
         npk = None
         if op in ("+", "-", "*", "//", "%", "&", "|", "^", "<<", ">>", "**"):
@@ -1240,7 +1255,7 @@ class Engine:
         else:
             raise Unsupported("int op %s" % op)
         if npk is not None:
-            r = wrap(r, npk)
+            r = self.wrap_np(r, npk)
         return VInt(r, npk)
 
     @staticmethod
